@@ -637,6 +637,16 @@ theorem C05_wiped_histories_flags (cfg : Cfg) (hf1 : cfg.f1 = true) (hf11 : cfg.
     (hm : (run { cfg := cfg } ops).mem = some m) (hl : m.locked = true) : KeyClear m :=
   ((stW_run { cfg := cfg } ⟨hf1, hf11, hf2b, hf13⟩ ops (stW_init cfg)).mem m hm).1 hl
 
+/-- the same over the buffer map exactly as the hook `VerifBufferReport` lists it: in every reachable locked state
+also the clear-text key of both cached last-address objects of every cached account is nil, whatever their kind
+(`BufClear`; the model invariant `LastKind` — those slots always hold live `*managedAddress` objects — discharges the
+`kind = managed` premise of `KeyClear.last`).  Not covered (observation O1, as everywhere in C05): the clear text of
+SECRET witness / taproot scripts, which `lock()` does not wipe. -/
+theorem C05_wiped_histories_bufmap (cfg : Cfg) (hfix : cfg.allFixed) (ops : List Op) (m : Mem)
+    (hm : (run { cfg := cfg } ops).mem = some m) (hl : m.locked = true) : BufClear m :=
+  have h := (stW_run { cfg := cfg } ⟨hfix.1, hfix.2.2.2.2.1, hfix.2.2.1, hfix.2.2.2.2.2.2.1⟩ ops (stW_init cfg)).mem m hm
+  bufClear_of (h.1 hl) h.2.1
+
 /-- non-vacuity: the history of `C05_counterexample_F13` extended by more bracketed issuing, a failed Unlock of an
 unlocked manager and a conversion reaches locked states (with cached addresses and accounts) on the current tree. -/
 example :
